@@ -231,7 +231,7 @@ func eqZRaw(p *Poly, ra, rb *node) Pred {
 	}
 	common, rest := p.commonFactor()
 	if len(common) == 0 {
-		return pEqZ{p: p, ra: ra, rb: rb}
+		return pEqZ{p: canonSign(p), ra: ra, rb: rb}
 	}
 	var alts []Pred
 	seen := map[int]bool{}
@@ -265,7 +265,27 @@ func keepRaw(p *Poly, ra, rb *node) Pred {
 	if ra == nil || rb == nil {
 		return simplifyEqZ(p)
 	}
-	return pEqZ{p: p, ra: ra, rb: rb}
+	return pEqZ{p: canonSign(p), ra: ra, rb: rb}
+}
+
+// canonSign picks between p and −p (the same zero set) the one whose leading coefficient is the
+// smaller: a − b ≡ 0 and b − a ≡ 0 then have the same key, so that a literal contradicting a known
+// fact or an enforced genericity assumption is recognised syntactically (and, for the solver, by
+// identical terms) instead of by reasoning modulo q.
+func canonSign(p *Poly) *Poly {
+	if len(p.t) == 0 || current == nil {
+		return p
+	}
+	q := current.q
+	lead := p.leadMono()
+	c := p.t[monoOf(append([]int{}, lead...))]
+	if c == nil {
+		return p
+	}
+	if new(big.Int).Lsh(c, 1).Cmp(q) > 0 {
+		return p.neg(q)
+	}
+	return p
 }
 
 // fold simplifies atoms whose normal form is constant or factorisable (what EqF does eagerly).
